@@ -419,7 +419,40 @@ def _(ctx):
             ctx.prove('is_at_scale.path%d' % k, sym.pc, z3.Or(tiny, absz(sc - q) < z3.Q(1, 100)) if r else z3.Not(z3.Or(tiny, absz(sc - q) < z3.Q(1, 100))), check_vacuity=False)
     ctx.merge_rules(it)
 
-@obligation('C13.blocks.every_block_in_order', fns=[(IOH, 'GM2_slha_io::read_block'), (IO, 'GM2_slha_io::read_block'), (IOH, 'GM2_slha_io::read_matrix'), (IOH, 'GM2_slha_io::read_vector')])
+def _physics_part(out):
+    """the result lines of an output (the SLHA formats echo the input blocks, which differ by construction)"""
+    ls = out.splitlines()
+    for i, l in enumerate(ls):
+        if l.strip().lower().startswith('block gm2calcoutput'):
+            return ls[i:i + 4]
+    return ls
+
+def replay_index_tokens(model, wd):
+    """run the REAL program with huge row/column index tokens (values that wrap into range when truncated to 32 bits) in the matrix blocks of the shipped examples: exit
+    status 0 or 1, never a signal, and the physics output unchanged (an out-of-range index is ignored)"""
+    from gm2v import native
+    from gm2v.world import REPO
+    import subprocess, os, re
+    exe = native.build_gm2calc()
+    bad, n = [], 0
+    for fname, opt, blocks in (('example.slha', '--slha-input-file=-', ('NMIX', 'AU', 'AD', 'AE', 'SMUMIX')), ('example.thdm', '--thdm-input-file=-', ('GM2CalcTHDMDeltauInput', 'GM2CalcTHDMPilInput'))):
+        txt = open(os.path.join(REPO, 'input', fname)).read()
+        ref = subprocess.run([exe, opt], input=txt, capture_output=True, text=True, timeout=60)
+        for blk in blocks:
+            for tok in ('4294967297', '-4294967295', '1099511627777', '8589934594'):
+                for pos in (0, 1):
+                    idx = ['1', '1']
+                    idx[pos] = tok
+                    new = txt + '\nBlock %s%s\n   %s  %s   1.234\n' % (blk, ' Q= 1.00000000e+03' if fname.endswith('slha') and blk != 'NMIX' and blk != 'SMUMIX' else '', idx[0], idx[1])
+                    n += 1
+                    r = subprocess.run([exe, opt], input=new, capture_output=True, text=True, timeout=60)
+                    if r.returncode not in (0, 1):
+                        bad.append('%s: extra line "%s %s 1.234" in Block %s: exit status %d%s' % (fname, idx[0], idx[1], blk, r.returncode, ' (signal %d)' % -r.returncode if r.returncode < 0 else ''))
+                    elif r.returncode == 0 and _physics_part(r.stdout) != _physics_part(ref.stdout):
+                        bad.append('%s: out-of-range index %s in Block %s changed the output' % (fname, tok, blk))
+    return bool(bad), '%d runs, %d out of contract; first: %s' % (n, len(bad), ' || '.join(bad[:3]))
+
+@obligation('C13.blocks.every_block_in_order', fns=[(IOH, 'GM2_slha_io::read_block'), (IO, 'GM2_slha_io::read_block'), (IOH, 'GM2_slha_io::read_matrix'), (IOH, 'GM2_slha_io::read_vector')], replay=replay_index_tokens)
 def _(ctx):
     """read_block(name, matrix|processor, scale): EVERY block called `name` (case-insensitively) whose scale matches is read, in file order, so
     that a later assignment overrides an earlier one and entries split over several blocks are all taken; blocks at other scales and blocks
@@ -449,6 +482,43 @@ def _(ctx):
         except EvalError as e:
             ok, det = False, 'memory safety / extraction: %s' % e
         ctx.record('matrix.' + name, PROVED if ok else FAILED, 'B', 0, det)
+        ctx.merge_rules(it)
+    # ARBITRARY index tokens (any value of the 64-bit index type the tokens are converted to): a store happens only for 1 <= i <= rows, 1 <= k <= cols, and then into
+    # exactly that entry; integers passed to a 32-bit `int` parameter wrap around (so a range check done on a narrowed copy of the index is not a range check)
+    I, K = z3.Int('index_token_i'), z3.Int('index_token_k')
+    for shape, fill, toks in (('matrix3x3', lambda: Mat.fill(3, 3, 0, 'matrix', False), (I, K, a)), ('vector3', lambda: Mat.fill(3, 1, 0, 'matrix', False), (I, a))):
+        it = Interp(ctx.w, mode='sym', stubs={'GM2_slha_io::convert_to': num_stub, 'convert_to': num_stub},
+                    assumptions=[I >= -2**63, I < 2**63, K >= -2**63, K < 2**63])
+        it.int_narrowing = True
+        stores = []
+        def thunk():
+            M = fill()
+            io = Obj(io_cls, {'data': Coll([Block('AE', 1000, [toks])])})
+            it.invoke(fd_named_matrix, ['AE', M, 1000], io)
+            return M
+        try:
+            ps = it.run_paths(thunk, max_paths=64)
+            bad = None
+            for sy, M, exc in ps:
+                if exc is not None:
+                    bad = 'exception %s' % exc
+                    break
+                written = [(i, j) for i in range(M.r) for j in range(M.c) if not (isinstance(M.d[i][j], int) and M.d[i][j] == 0)]
+                for (i, j) in written:
+                    cond = z3.And(I == i + 1, K == j + 1) if M.c > 1 else (I == i + 1)
+                    sv = z3.Solver()
+                    sv.add(*[c for c in sy.pc])
+                    sv.add(z3.Not(cond))
+                    if sv.check() != z3.unsat:
+                        bad = 'entry (%d,%d) is written although the index tokens need not be (%d,%d)' % (i, j, i + 1, j + 1)
+                if len(written) > 1:
+                    bad = 'more than one entry written for one data line'
+            ok, det = bad is None, bad or '%d paths: a store happens exactly for in-range index tokens, into the entry they name' % len(ps)
+            mdl = None
+        except EvalError as e:
+            ok, det = False, 'memory safety: %s' % e
+            mdl = {'_float': {'index_token_i': 4294967297.0, 'index_token_k': 1.0}}
+        ctx.record('arbitrary_index_tokens.' + shape, PROVED if ok else FAILED, 'B', 0, det, model=None if ok else mdl)
         ctx.merge_rules(it)
     # tuple processor variant
     for name, blocks, want in (('later_overrides', [Block('HMIX', 1000, [(1, a)]), Block('HMIX', 1000, [(1, c), (2, b)])], [(1, a), (1, c), (2, b)]),
